@@ -569,6 +569,28 @@ SYN_PROGRAMS = (
 )
 
 
+# G-triv: programs dense in trivia (comments in every position, blank lines, multi-line strings as statements and as values, elif chains,
+# semicolons, line continuations), for grids of edits whose point is what happens AROUND the edited element
+TRIVIA_PROGRAMS = (
+    'if a:\n    x = 1  # c1\nelif b:\n    """s1\n       s2"""\n    y = \'\'\'t1\n  t2\'\'\'  # c2\nelse:\n    z',
+    'if a:\n    x\nelif b:\n    """only\n  doc"""\n',
+    '# lead\n\nx = 1  # tx\n\n# between 1\n# between 2\ny = 2\n\n\n# before z\nz = 3  # tz\n# tail\n',
+    'def f():\n    """doc\n    more\n    """\n\n    # c0\n    a = 1  # ta\n\n    # c1\n\n    b = 2\n    # end of f\n\n\n# after f\ng = 3',
+    'class C:\n    # first\n    x = 1\n\n    def m(self):  # tm\n        pass  # tp\n\n    # between\n    def n(self):\n        \'\'\'d\n        e\'\'\'\n        return 1\n    # last',
+    'r = [\n    a,  # ca\n    # own line\n    b,\n\n    c,  # cc\n]  # after\ns = f(\n    x,  # cx\n    k=1,  # ck\n    # own\n    **kw,\n)',
+    'try:\n    a  # ta\n# c before except\nexcept E:  # te\n    b\n\n# c before else\nelse:\n    c\n# c before finally\nfinally:  # tf\n    d  # td',
+    'x = 1; y = 2  # cxy\nz = 3 ; w = 4 ;  # trailing semi\nif a: b; c  # cbc\n',
+    'x = a + \\\n    b  # cont\ny = (a +  # inner\n     b)\nz = \\\n    1\n',
+    'match s:\n    # before case 1\n    case 1:  # t1\n        a\n\n    # before case 2\n    case [x, y]:\n        b  # tb\n    case _: pass  # tp',
+    'for i in x:  # tfor\n    # body lead\n    a\n\n    b  # tb\n# before else\nelse:\n    c\n\nwhile a:\n    break  # tbrk\nelse:  # telse\n    d',
+    'with a as b:  # tw\n\n    # lead\n    c\n\n\n    d  # td\n\n# after with\n',
+    '@d1  # td1\n# between decorators\n@d2\ndef f(a,  # ta\n      b):  # tb\n    return a  # tr\n',
+    'a = {\n    1: x,  # c1\n    # own\n    **u,\n    2: y,\n}\nb = (i  # ci\n     for i in j  # cj\n     if k)  # ck\n',
+    'import a  # ca\nfrom b import (c,  # cc\n               d)  # cd\n\nglobal g  # cg\ndel p, q  # cdel\nassert a, m  # cas\n',
+    '\tif a:\n\t\tx  # tabs\n\t\t# own\n\t\ty\n'.replace('\tif', 'if').replace('\n\t\t', '\n\t'),
+)
+
+
 @functools.lru_cache(maxsize=None)
 def saturated_programs() -> tuple[str, ...]:
     """G-sat: small programs enumerating the optional parts of every compound construct (decorators x type parameters x bases /
